@@ -452,7 +452,6 @@ func c02VerifySuccess(c *Ctx) {
 	_ = sort.Strings
 }
 
-
 // c02SectionComplete: the per-section digest helpers of the state-diff hash (functions of package core that take a
 // *crypto.PoseidonDigest and the section's maps/slices) commit to the section AS GIVEN: (count) the entry count fed to the
 // digest first is the sum of len() of exactly the section parameters; (unfiltered) every value an Update receives derives
